@@ -385,7 +385,7 @@ func genC01(t *rapid.T) c01Plan {
 	n := rapid.IntRange(1, 30).Draw(t, "steps")
 	steps := make([]c01Step, n)
 	for i := range steps {
-		kind := rapid.SampledFrom([]string{"talk", "talk", "talk", "talk", "pong", "nodes", "content", "offerresp", "stream", "utpcontent", "validate", "validate", "put", "put", "get"}).Draw(t, "kind")
+		kind := rapid.SampledFrom([]string{"talk", "talk", "talk", "talk", "pong", "nodes", "content", "offerresp", "stream", "utpcontent", "validate", "validate", "put", "put", "get", "ephemeral"}).Draw(t, "kind")
 		s := c01Step{Kind: kind, Sender: rapid.IntRange(0, 4).Draw(t, "sender")}
 		switch kind {
 		case "talk":
@@ -420,6 +420,16 @@ func genC01(t *rapid.T) c01Plan {
 			s.Key, s.Msg = genKV(t, network)
 		case "get":
 			s.Key = genKeyBytes(t, network)
+		case "ephemeral":
+			// two steps that belong together (history network): something is stored under a 32-byte key of the
+			// ephemeral-header kind - the store RPC writes whatever it is given - and then a peer asks for the
+			// ephemeral headers of the "block hash" that those 32 bytes are
+			s.Key = append([]byte{0x05}, rapid.SliceOfN(rapid.Byte(), 31, 31).Draw(t, "ehash")...)
+			s.Msg = rapid.SliceOfN(rapid.Byte(), 0, 9).Draw(t, "evalue")
+			if rapid.IntRange(0, 3).Draw(t, "e8") == 0 {
+				s.Msg = rapid.SliceOfN(rapid.Byte(), 8, 8).Draw(t, "evalue8")
+			}
+			s.NKeys = rapid.SampledFrom([]int{0, 0, 1, 5, 255}).Draw(t, "ancestors")
 		}
 		steps[i] = s
 	}
@@ -630,6 +640,17 @@ func (e *c01Env) step(s c01Step, c *stats.Case) error {
 		} else {
 			c.Class("put:error")
 		}
+	case "ephemeral":
+		_ = e.live.Store.Put(s.Key, p.ToContentId(s.Key), s.Msg)
+		ask := append(append([]byte{0x05}, s.Key...), byte(s.NKeys))
+		if _, err := e.live.Store.Get(ask, p.ToContentId(ask)); err == nil {
+			c.Class("ephemeral:found")
+		}
+		body, _ := (&portalwire.FindContent{ContentKey: ask}).MarshalSSZ()
+		req := append([]byte{portalwire.FINDCONTENT}, body...)
+		reply := p.VerifHandleTalkRequest(sender, addr, req)
+		c.NT("ephemeral:stored-then-asked")
+		return wellFormedReply(req, reply)
 	case "get":
 		v, err := e.live.Store.Get(s.Key, p.ToContentId(s.Key))
 		if err == nil {
